@@ -308,8 +308,10 @@ fn main() {
     let stds: Vec<i32> = if tier == Tier::Thorough { vec![-43200, -18000, 0, 3600, 19800, 43200] } else { vec![-18000, 0, 19800] };
     let deltas: Vec<i32> = if tier == Tier::Thorough { vec![3600, 1800, 7200, -3600] } else { vec![3600, -3600] };
     let times: Vec<(i32, i32)> = if tier == Tier::Thorough { vec![(7200, 7200), (0, 0), (5400, 10800), (86400, 3600), (10800, 86400)] } else { vec![(7200, 7200), (0, 86400)] };
-    let probe_years: Vec<i64> = vec![1900, 1999, 2000, 2023, 2024, 2100, 9999];
+    let probe_years: Vec<i64> = vec![1900, 1999, 2000, 2023, 2024, 2026, 2037, 2100, 9999];
     let proviso_years: Vec<i64> = probe_years.iter().cloned().chain([1969, 1970, 1971, MIN_YEAR + 1, MIN_YEAR + 2, MAX_YEAR - 1, MAX_YEAR - 2]).collect();
+    // a full 28-year weekday/leap cycle for the footers of the system zones, plus far years
+    let sys_years: Vec<i64> = [1969i64, 1970, 2100, 2400, 9999].into_iter().chain(2023..=2051).collect();
     let n_rule = nd * nd;
     let only = replay_unit(&args);
     let mut acc = explore_units(n_syn + n_rule + nfiles, CLASSES.len(), only, |u, acc| {
@@ -401,7 +403,7 @@ fn main() {
                         }
                     };
                     acc.states += 1;
-                    judge_zone(acc, &|| format!("/usr/share/zoneinfo/{}", name), &vz, &z, &[1969, 1970, 2023, 2040, 2100, 9999]);
+                    judge_zone(acc, &|| format!("/usr/share/zoneinfo/{}", name), &vz, &z, &sys_years);
                     acc.hit(SYSZ);
                 }
                 Err(Reject::HasLeapRecords) => acc.skip("system file with leap-second records"),
